@@ -13,20 +13,21 @@ Open Scope list_scope.
 Section Pres.
   Variable n0 cur0 : nat.
   Variable look : name -> option val.
+  Variable mutl : list name.
   Hypothesis Hcur0 : cur0 < n0.
 
   (* the general form: e is evaluated in the frame in which it was frozen *)
   Theorem freeze_preserves_post : forall B e e' B' st st' fuel,
     freeze look B e = Ok (e', B') ->
-    declared_before_captured B e ->
-    srel n0 cur0 look (rn B e) st st' ->
-    agree n0 cur0 look (rn B e) (frames st) ->
-    post n0 cur0 look (rn B e) (vrel n0 cur0 look (rn B e)) st cur0 (ddecl e)
+    declared_before_captured mutl B e ->
+    srel n0 cur0 look (rn B e) mutl st st' ->
+    agree n0 cur0 look (rn B e) mutl (frames st) ->
+    post n0 cur0 look (rn B e) mutl (vrel n0 cur0 look (rn B e) mutl) st cur0 (ddecl e)
          (eval (prot0 n0 (rn B e)) fuel st cur0 e) (eval (prot0 n0 (rn B e)) fuel st' cur0 e').
   Proof.
     intros B e e' B' st st' fuel HF HD S Ag.
     assert (N0 : n0 <= length (frames st)) by (destruct S; auto).
-    apply (eval_sim n0 cur0 look (rn B e) Hcur0 fuel (fun x => In x (rn B e)) (fun _ => False) B e e' st st' cur0); auto.
+    apply (eval_sim n0 cur0 look (rn B e) mutl Hcur0 fuel (fun x => In x (rn B e)) (fun _ => False) B e e' st st' cur0); auto.
     - eapply freeze_fzr; eauto.
     - intros x Hx. apply mem_spec. auto.
     - intros x _ _. reflexivity.
@@ -38,16 +39,16 @@ Section Pres.
   (* the same, spelled out *)
   Theorem freeze_preserves : forall B e e' B' st st' fuel st1 r,
     freeze look B e = Ok (e', B') ->
-    declared_before_captured B e ->
-    srel n0 cur0 look (rn B e) st st' ->
-    agree n0 cur0 look (rn B e) (frames st) ->
+    declared_before_captured mutl B e ->
+    srel n0 cur0 look (rn B e) mutl st st' ->
+    agree n0 cur0 look (rn B e) mutl (frames st) ->
     eval (prot0 n0 (rn B e)) fuel st cur0 e = (st1, r) ->
     r <> OutOfFuel -> r <> Sig STrap ->
     exists st1' r',
       eval (prot0 n0 (rn B e)) fuel st' cur0 e' = (st1', r') /\
-      srel n0 cur0 look (rn B e) st1 st1' /\
+      srel n0 cur0 look (rn B e) mutl st1 st1' /\
       out st1 = out st1' /\
-      rres n0 cur0 look (rn B e) (vrel n0 cur0 look (rn B e)) (frames st1) r r'.
+      rres n0 cur0 look (rn B e) mutl (vrel n0 cur0 look (rn B e) mutl) (frames st1) r r'.
   Proof.
     intros B e e' B' st st' fuel st1 r HF HD S Ag HE N1 N2.
     pose proof (freeze_preserves_post B e e' B' st st' fuel HF HD S Ag) as HP.
@@ -60,17 +61,17 @@ Section Pres.
      plain run, and so is the frozen run *)
   Theorem freeze_preserves_plain : forall B e e' B' st st' fuel st1 r,
     freeze look B e = Ok (e', B') ->
-    declared_before_captured B e ->
-    srel n0 cur0 look (rn B e) st st' ->
-    agree n0 cur0 look (rn B e) (frames st) ->
+    declared_before_captured mutl B e ->
+    srel n0 cur0 look (rn B e) mutl st st' ->
+    agree n0 cur0 look (rn B e) mutl (frames st) ->
     eval (prot0 n0 (rn B e)) fuel st cur0 e = (st1, r) ->
     r <> OutOfFuel -> r <> Sig STrap ->
     eval noprot fuel st cur0 e = (st1, r) /\
     exists st1' r',
       eval noprot fuel st' cur0 e' = (st1', r') /\
-      srel n0 cur0 look (rn B e) st1 st1' /\
+      srel n0 cur0 look (rn B e) mutl st1 st1' /\
       out st1 = out st1' /\
-      rres n0 cur0 look (rn B e) (vrel n0 cur0 look (rn B e)) (frames st1) r r'.
+      rres n0 cur0 look (rn B e) mutl (vrel n0 cur0 look (rn B e) mutl) (frames st1) r r'.
   Proof.
     intros B e e' B' st st' fuel st1 r HF HD S Ag HE N1 N2.
     split; [eapply eval_prot_noprot; eauto|].
@@ -82,9 +83,9 @@ Section Pres.
 
   (* using the frozen value later: related functions applied to related arguments in related stores *)
   Theorem frozen_call_preserves : forall resl fuel st st' cur fv fv' args args',
-    srel n0 cur0 look resl st st' -> agree n0 cur0 look resl (frames st) ->
-    vrel n0 cur0 look resl (frames st) fv fv' -> vrels n0 cur0 look resl (frames st) args args' ->
-    post n0 cur0 look resl (vrel n0 cur0 look resl) st cur []
+    srel n0 cur0 look resl mutl st st' -> agree n0 cur0 look resl mutl (frames st) ->
+    vrel n0 cur0 look resl mutl (frames st) fv fv' -> vrels n0 cur0 look resl mutl (frames st) args args' ->
+    post n0 cur0 look resl mutl (vrel n0 cur0 look resl mutl) st cur []
          (apply (prot0 n0 resl) fuel st fv args) (apply (prot0 n0 resl) fuel st' fv' args').
   Proof.
     intros resl fuel st st' cur fv fv' args args' S Ag Rf Ra. unfold apply.
@@ -92,42 +93,42 @@ Section Pres.
   Qed.
 
   (* related data are equal: the relation only has slack in closure bodies *)
-  Theorem vrel_data_eq : forall resl fs v v', vrel n0 cur0 look resl fs v v' -> simple v = true -> v = v'.
-  Proof. intros resl fs v v' H S. apply (vrel_simple n0 cur0 look resl fs v v' H); auto. Qed.
+  Theorem vrel_data_eq : forall resl fs v v', vrel n0 cur0 look resl mutl fs v v' -> simple v = true -> v = v'.
+  Proof. intros resl fs v v' H S. apply (vrel_simple n0 cur0 look resl mutl fs v v' H); auto. Qed.
 End Pres.
 
 (* ---------------------------------------------------------------- a store without closures is related to itself *)
 Definition frame_noclos (fr : frame) : Prop := forall x v, In (x, v) (vars fr) -> noclos v = true.
 
-Lemma vars_rel_refl : forall n0 cur0 look resl fs l,
-  (forall x v, In (x, v) l -> noclos v = true) -> vars_rel n0 cur0 look resl fs l l.
+Lemma vars_rel_refl : forall n0 cur0 look resl mutl fs l,
+  (forall x v, In (x, v) l -> noclos v = true) -> vars_rel n0 cur0 look resl mutl fs l l.
 Proof.
-  intros n0 cur0 look resl fs l. induction l as [|[x v] l IH]; intros H; constructor.
-  - split; auto. cbn. apply noclos_refl_both. apply (H x v). left; auto.
+  intros n0 cur0 look resl mutl fs l. induction l as [|[x v] l IH]; intros H; constructor.
+  - split; auto. cbn. right. apply noclos_refl_both. apply (H x v). left; auto.
   - apply IH. intros y w Hy. apply (H y w). right; auto.
 Qed.
 
-Lemma frames_rel_refl : forall n0 cur0 look resl fs0 l,
-  Forall frame_noclos l -> Forall2 (frame_rel n0 cur0 look resl fs0) l l.
+Lemma frames_rel_refl : forall n0 cur0 look resl mutl fs0 l,
+  Forall frame_noclos l -> Forall2 (frame_rel n0 cur0 look resl mutl fs0) l l.
 Proof.
-  intros n0 cur0 look resl fs0 l H. induction H; constructor; auto.
+  intros n0 cur0 look resl mutl fs0 l H. induction H; constructor; auto.
   split; auto. apply vars_rel_refl. auto.
 Qed.
 
-Lemma srel_refl : forall n0 cur0 look resl st,
+Lemma srel_refl : forall n0 cur0 look resl mutl st,
   cur0 < n0 -> n0 <= length (frames st) -> wf_frames (frames st) -> Forall frame_noclos (frames st) ->
-  srel n0 cur0 look resl st st.
+  srel n0 cur0 look resl mutl st st.
 Proof.
-  intros n0 cur0 look resl st H1 H2 H3 H4. constructor; auto.
+  intros n0 cur0 look resl mutl st H1 H2 H3 H4. constructor; auto.
   apply frames_rel_refl; auto.
 Qed.
 
-Lemma agree_refl : forall n0 cur0 resl fs,
+Lemma agree_refl : forall n0 cur0 resl mutl fs,
   Forall frame_noclos fs ->
   (forall x, mem x resl = true -> lookup fs cur0 x <> None) ->
-  agree n0 cur0 (lookup fs cur0) resl fs.
+  agree n0 cur0 (lookup fs cur0) resl mutl fs.
 Proof.
-  intros n0 cur0 resl fs HN HL x v0 M F. exists v0. split; auto.
+  intros n0 cur0 resl mutl fs HN HL x v0 M F. exists v0. split; auto.
   apply noclos_refl_both. unfold lookup in F.
   destruct (resolve fs cur0 x) as [g|]; [|discriminate]. unfold cell in F.
   destruct (nth_error fs g) as [fr|] eqn:E; [|discriminate].
@@ -141,20 +142,55 @@ Proof.
   - apply IH; auto. intros z u Hz. apply (NF z u). right; auto.
 Qed.
 
+(* ---------------------------------------------------------------- reassigning an outer variable of mutl *)
+Lemma vars_rel_assoc_set_mut : forall n0 cur0 look resl mutl fs l l' x w,
+  vars_rel n0 cur0 look resl mutl fs l l' -> mem x mutl = true ->
+  vars_rel n0 cur0 look resl mutl fs l (assoc_set x w l').
+Proof.
+  intros n0 cur0 look resl mutl fs l l' x w H M.
+  induction H as [|[y v] [y' v'] l l' [H1 H2] H IH]; cbn; [constructor|].
+  cbn in H1, H2. subst y'. destruct (String.eqb x y) eqn:Q.
+  - apply String.eqb_eq in Q. subst y. constructor; auto.
+  - constructor; auto.
+Qed.
+
+Lemma Forall2_set_nth_r : forall {A B} (R : A -> B -> Prop) l l' g a b,
+  Forall2 R l l' -> nth_error l g = Some a -> R a b -> Forall2 R l (set_nth g b l').
+Proof.
+  intros A B R l l' g a b H. revert g. induction H; intros [|g] E Hab; cbn in *; try discriminate.
+  - inversion E; subst. constructor; auto.
+  - constructor; eauto.
+Qed.
+
+(* the frozen-side store may be changed arbitrarily at the variables of mutl *)
+Theorem srel_reassign : forall n0 cur0 look resl mutl st st' f x w st'',
+  srel n0 cur0 look resl mutl st st' -> mem x mutl = true ->
+  assign noprot st' f x w = UOk st'' -> srel n0 cur0 look resl mutl st st''.
+Proof.
+  intros n0 cur0 look resl mutl st st' f x w st'' [F O W N C] M A. unfold assign in A.
+  destruct (resolve (frames st') f x) as [g|]; [|discriminate].
+  destruct (nth_error (frames st') g) as [fr'|] eqn:E'; [|discriminate]. cbn [noprot] in A.
+  inversion A; subst st''; clear A. constructor; cbn [frames out]; auto.
+  destruct (nth_error (frames st) g) as [fr|] eqn:E.
+  - destruct (Forall2_nth _ _ _ _ _ F E) as (fr2 & E2 & [FP FVs]). rewrite E' in E2. inversion E2; subst fr2.
+    eapply Forall2_set_nth_r; eauto. split; cbn; auto. apply vars_rel_assoc_set_mut; auto.
+  - rewrite (Forall2_nth_none _ _ _ _ F E) in E'. discriminate.
+Qed.
+
 (* ---------------------------------------------------------------- the unrestricted statement is false (F21) *)
 Theorem freeze_preserves_refuted :
   exists (st : state) (e e' : expr) (B' : list name),
     freeze (look_in (frames st) 0) [] e = Ok (e', B') /\
-    ~ declared_before_captured [] e /\
-    srel 1 0 (look_in (frames st) 0) (rn [] e) st st /\
-    agree 1 0 (look_in (frames st) 0) (rn [] e) (frames st) /\
+    ~ declared_before_captured [] [] e /\
+    srel 1 0 (look_in (frames st) 0) (rn [] e) [] st st /\
+    agree 1 0 (look_in (frames st) 0) (rn [] e) [] (frames st) /\
     eval (prot0 1 (rn [] e)) 12 st 0 e = (fst (eval (prot0 1 (rn [] e)) 12 st 0 e), Val (VInt 8)) /\
     snd (eval (prot0 1 (rn [] e)) 12 st 0 e') = Val (VInt 3).
 Proof.
   exists f21_state, (ECall f21_body [EInt 8]).
   destruct (freeze (look_in (frames f21_state) 0) [] (ECall f21_body [EInt 8])) as [[e' B']|c| |] eqn:E;
     try (vm_compute in E; discriminate).
-  exists e', B'. split; [reflexivity|]. split; [exact f21_not_dbc|].
+  exists e', B'. split; [reflexivity|]. split; [exact (f21_not_dbc [])|].
   assert (NC : Forall frame_noclos (frames f21_state)).
   { constructor; [|constructor]. intros x v H. cbn in H.
     repeat (destruct H as [H|H]; [inversion H; subst; reflexivity|]). destruct H. }
